@@ -111,7 +111,7 @@ def run(ctx):
     return ctx.finish(
         rule=("(a) %d ordered (writer, reader) pairs over %d generated stacks and their variants with the other interpolation method and/or the other "
               "storage precision (float<->double): writer storage holds exactly representable values, values that need rounding in both "
-              "directions, exact ties with odd and even neighbours and values one ulp off a tie, values in the float subnormal range and just "
+              "directions, exact ties with odd and even neighbours and values one ulp off a tie, values in the float subnormal range, signed zeros and values below the subnormal range (the sign survives) and just "
               "inside +-FLT_MAX; reader must load, keep every non-storage configuration, preserve values exactly when widening and produce the "
               "nearest float (ties to even, checked against the definition with binary128 distances) when narrowing; the reader's re-dump is "
               "parsed by the independent grammar reader.  (b) %d golden files written by the pinned revision 9bc2998 (committed under golden/ "
